@@ -8,7 +8,11 @@ use meshless_voronoi::integrals::VolumeIntegral;
 use proptest::strategy::BoxedStrategy;
 
 fn strategy(tier: Tier) -> BoxedStrategy<Case> {
-    gen::case_strategy(GenOpts { max_n: tier.pick(600, 4000), big_n_weight: 1, ..GenOpts::default() })
+    use proptest::prelude::*;
+    let base = gen::case_strategy(GenOpts { max_n: tier.pick(600, 4000), big_n_weight: 1, ..GenOpts::default() });
+    // 1 % clump inputs (density contrast: a dense clump of 1200..3000 / 8000 generators next to
+    // a few big cells)
+    prop_oneof![99 => base, 1 => gen::clump_strategy(1200, tier.pick(3000, 8000))].boxed()
 }
 
 /// A-priori bound on the boundary measure of a cell that lies inside the ball of radius r
@@ -128,7 +132,7 @@ pub fn def() -> PropDef {
         check,
         cases: |t| t.pick(6000, 300_000),
         profiles: &["release"],
-        required: &["dim1", "dim2", "dim3", "periodic", "reflective", "aspect>=64", "offset>=2^10", "n=1", "n=2", "n=41..400"],
+        required: &["dim1", "dim2", "dim3", "periodic", "reflective", "aspect>=64", "offset>=2^10", "n=1", "n=2", "n=41..400", "fam:C"],
         fixed: None,
         assumptions: &["valid input: generators in the closed box, pairwise separated by >= 2^-44 * coordinate scale (modulo the period)", "tolerance model of DESIGN.md section 4.2"],
     }
